@@ -12,7 +12,8 @@ PROPS = {
            "pre-emptions plus seeded random schedules of the real when_all (1-4 children, every outcome combination, racing/pre-start stop) is "
            "replayed step by step on the extracted model (each shared access incl. memory order). Sequential and nested composition: "
            "theorems over the Calc model for ALL expressions and scripts (at most one completion, none lost while no leaf is running, silence after completion), "
-           "tied by the K2 program differential."),
+           "tied by the K2 program differential."
+           "Second-generation model Calc2 (adds operation-state lifetimes, execution contexts and schedulers, via/on/with_scheduler_affinity, let_value_with_stop_source, stop_if_requested, repeat_effect_until, retry_when, when_any, into_variant, values whose copy throws): the corresponding theorems are re-proved over it (Properties_<id>_calc2.v) and tied by the K2v2 differential."),
   "note": TB + "Sequential consistency assumed (the shim serialises threads). Stop-source internals belong to C03's model. Schedulers/timers/io completions are C06/C07/C14.",
   "design_ref": "5/C01",
  },
@@ -47,7 +48,8 @@ PROPS = {
            "(incl. before start): the request reaches every running connected leaf exactly once, children started later start stopped, losers of "
            "when_all/stop_when are stopped, the composite completes during the request iff all its leaves completed, and no stop callback is registered "
            "on the receiver's token at completion (refuted for stop_when as written before the fix). Tie: generated expressions x scripts run on the real "
-           "library, traces equal to the extracted model event by event. Races (stop vs last child on another thread) are decided by the E1 models of C01/C03/C19."),
+           "library, traces equal to the extracted model event by event. Races (stop vs last child on another thread) are decided by the E1 models of C01/C03/C19."
+           "Second-generation model Calc2 (adds operation-state lifetimes, execution contexts and schedulers, via/on/with_scheduler_affinity, let_value_with_stop_source, stop_if_requested, repeat_effect_until, retry_when, when_any, into_variant, values whose copy throws): the corresponding theorems are re-proved over it (Properties_<id>_calc2.v) and tied by the K2v2 differential. Calc2 adds: stop through let_value_with_stop_source's own source, a leaf-requested stop reaching the leaves under that source, when_any's first finisher stopping the other."),
   "note": TB + "take_until/stop_immediately/when_any/let_value_with_stop_source/task/future are not in the Calc model (C13/C10/C09 units).",
   "design_ref": "5/C04",
  },
@@ -57,7 +59,8 @@ PROPS = {
   "text": ("Theorem C05_calc_result/timing: for ALL expressions without stop-reactive leaves and ALL stop-free scripts (every assignment of leaf outcomes, "
            "every completion order, duplicates, unknown ids, every position of a throwing callable) the root completes iff, when, and with exactly the outcome "
            "the compositional denotation written from the documentation prescribes. Tie: the same machine is compared event by event with the real library "
-           "on generated expressions x scripts (K2)."),
+           "on generated expressions x scripts (K2)."
+           "Calc2 (tie + theorem thrown_store_is_error): a value whose copy throws when an algorithm stores it (finally, let_value, when_all, when_any, done_as_optional) surfaces as set_error at that node and finally's completion sender still runs."),
   "note": TB + "when_any, retry_when, repeat_effect_until, into_variant, variant_sender, defer/just_from, via/on, sync_wait are not in the Calc model yet; values are ints.",
   "design_ref": "5/C05",
  },
@@ -164,10 +167,13 @@ PROPS = {
  "C11": {
   "claimed": True, "drivers": [],
   "technique": "Coq proof of soundness of Gallina mirrors of the headers' trait formulas against the Calc machine + comparison of the mirrors with the compiled sender_traits",
-  "text": ("PARTIAL (static-traits half). Theorems for ALL expressions: a sender whose mirrored traits say sends_done=false never completes with done (any script, "
+  "text": ("Static traits, theorems for ALL expressions: a sender whose mirrored traits say sends_done=false never completes with done (any script, "
            "any stop); blocking always_inline/always completes inside start(); never does not. Tie: for every generated expression the three compile-time "
-           "traits and run-time blocking() printed by the compiled program equal the mirrors. Completion contexts (via/on/affinity, task) are not modelled."),
-  "note": TB + "Execution contexts are outside the Calc model: the first sentence of C11 (via/on/affine senders/task resume context) is not decided here.",
+           "traits and run-time blocking() printed by the compiled program equal the mirrors; hand-written probes for algorithms outside the grammar (dematerialize, retry_when, via/on, ...). "
+           "Completion contexts (Calc2: every completion carries the context of the event that caused it): via c s completes its receiver on context c, on c s starts s on context c with get_scheduler = c, "
+           "with_scheduler_affinity (non-affine branch) completes on the receiver's scheduler context - for ALL s and scripts; tie: K2v2 with harness schedulers whose contexts are tags. "
+           "Task scheduler affinity and the hop of event/mutex/async_pass senders are checked by monitors in C10/C15/C16 only."),
+  "note": TB + "Contexts are tags of single-threaded harness schedulers (real threads only in the K1 units). is_always_scheduler_affine is mirrored and compared, its soundness is proved only for via/on/with_scheduler_affinity compositions.",
   "design_ref": "5/C11",
  },
  "C12": {
@@ -175,7 +181,8 @@ PROPS = {
   "technique": "Coq proof by induction on expressions (env threading invariant) + K2 program differential in which every leaf logs what its receiver answers",
   "text": ("PARTIAL. Theorem for ALL expressions and scripts: every leaf observes exactly the query answers obtained by folding the documented overrides along its "
            "path (innermost with_query_value wins; unstoppable / the algorithms' own stop sources decide stop_possible). Tie: K2. get_scheduler/get_allocator, "
-           "type-erased wrappers' declared query sets and allocate()/spawn allocator symmetry are not in the model yet."),
+           "type-erased wrappers' declared query sets and allocate()/spawn allocator symmetry are not in the model yet."
+           "Second-generation model Calc2 (adds operation-state lifetimes, execution contexts and schedulers, via/on/with_scheduler_affinity, let_value_with_stop_source, stop_if_requested, repeat_effect_until, retry_when, when_any, into_variant, values whose copy throws): the corresponding theorems are re-proved over it (Properties_<id>_calc2.v) and tied by the K2v2 differential. Calc2 adds the get_scheduler query (with_query_value/on overrides)."),
   "note": TB + "Only the stop token and two user-defined query CPOs are modelled.",
   "design_ref": "5/C12",
  },
